@@ -5,6 +5,7 @@ event manager and a fake clock; the fired events (with times and thread ids), th
 first raised error are compared with the Lean model M3 (`drivers/Session.lean`).
 Shared by C07 (stream shape), C02 (failure marking) and C06 (cursor locality).
 """
+import os
 import queue
 import shutil
 import tempfile
@@ -91,6 +92,12 @@ def protocol_following(ops):
             if tid not in has_step or not att.get(tid):
                 return False
             att[tid] -= 1
+        elif k == "attachAbort":
+            # an exception leaves the innermost block of this thread (and is handled by the user code around it):
+            # fires nothing, needs no step; the block must be open
+            if not att.get(tid):
+                return False
+            att[tid] -= 1
     return not open_result and not any(kids.values()) and not any(att.values())
 
 
@@ -151,6 +158,35 @@ def grammar_failures(prop, ops, fired):
     return out
 
 
+def _att_content(path):
+    """what the harness writes into the attachment file it is handed: determined by the (unique) file name"""
+    return "content of " + os.path.basename(path)
+
+
+def attachment_failures(prop, obs):
+    """Statement-level facts of C06's last sentence on one observation: every attachment the fired stream
+    references exists on disk, with the content written for it, at the moment the event is fired (the writer
+    puts it into the report then); the referenced names are pairwise distinct."""
+    out = []
+    seen = set()
+    for a in obs.get("att_files", []):
+        if a["content"] is None:
+            out.append(C.Failure(prop + "/attachment-file-missing",
+                                 "LogAttachmentEvent fired for %s but no such file has been written" % a["path"]))
+        elif a["content"] != a["expected"]:
+            out.append(C.Failure(prop + "/attachment-content",
+                                 "%s holds %r, written was %r" % (a["path"], a["content"][:60], a["expected"])))
+        if a["path"] in seen:
+            out.append(C.Failure(prop + "/attachment-name-duplicate", "%s referenced by two attachment events" % a["path"]))
+        seen.add(a["path"])
+    sigs, uniq = set(), []
+    for f in out:
+        if f.signature not in sigs:
+            sigs.add(f.signature)
+            uniq.append(f)
+    return uniq
+
+
 def gen_ops(rng, chaos=0.05):
     """protocol-shaped op sequences of 1..3 worker threads (tids 1..3), each working through results, with
     lcc.Threads (tids 10+) spawned inside; `chaos` = probability of an out-of-protocol call."""
@@ -196,11 +232,14 @@ def gen_ops(rng, chaos=0.05):
                 body += spawn(tid, depth)
         if rng.random() < 0.35 and not any(isinstance(o, dict) and o["op"] == "setStep" for o in body):
             body.insert(rng.randint(0, len(body)), {"tid": tid, "op": "setStep", "desc": "in%d" % rng.randint(0, 3)})
+        # about a quarter of the blocks are left by an exception (`attachAbort`): the body — or `shutil.copy` of
+        # `save_attachment_file` on a missing source — raised, mostly BEFORE the file was written (`write: False`)
+        abort = rng.random() < 0.25
         out = [{"tid": tid, "op": "attachBegin", "file": "w%d.bin" % rng.randint(0, 3), "desc": "w%d" % rng.randint(0, 9),
-                "img": rng.random() < 0.3}]
+                "img": rng.random() < 0.3, "write": (rng.random() < 0.3) if abort else True}]
         out += body
         if not rng.random() < chaos:            # chaos: the block is never left
-            out.append({"tid": tid, "op": "attachEnd"})
+            out.append({"tid": tid, "op": "attachAbort" if abort else "attachEnd"})
         return out
 
     def body_ops(tid, depth=0):
@@ -216,7 +255,7 @@ def gen_ops(rng, chaos=0.05):
             elif r < 0.93 and depth < 1:
                 out += spawn(tid, depth)
             elif rng.random() < chaos:
-                out.append({"tid": tid, "op": rng.choice(["endStep", "endStep", "attachEnd"])})
+                out.append({"tid": tid, "op": rng.choice(["endStep", "endStep", "attachEnd", "attachAbort"])})
         return out
 
     used_phases = set()
@@ -318,6 +357,10 @@ def _window_corpus():
     step = lambda tid, d: {"tid": tid, "op": "setStep", "desc": d}
     log = lambda tid, m: {"tid": tid, "op": "log", "level": "info", "msg": m}
     end = lambda tid: {"tid": tid, "op": "attachEnd"}
+    abort = lambda tid: {"tid": tid, "op": "attachAbort"}
+
+    def begin_nowrite(tid, f, d, img=False):
+        return dict(begin(tid, f, d, img), write=False)
     return [
         # the step changes inside the block, after a log: a's end, b's start (flushed at exit), attachment under b
         wrap(test(1, "t1", 1, [step(1, "a"), log(1, "x"), begin(1, "f", "d"), step(1, "b"), end(1)])),
@@ -334,6 +377,19 @@ def _window_corpus():
         wrap(test(1, "t1", 1, [step(1, "a"), begin(1, "f", "d"), {"tid": 1, "op": "threadCreate", "new": 10},
                                {"tid": 10, "op": "threadRun"}, log(10, "in thread"), {"tid": 10, "op": "threadEnd"},
                                end(1)])),
+        # the body raises before the file is written (caught by the test): no event, the counter has advanced
+        wrap(test(1, "t1", 1, [step(1, "a"), begin(1, "f", "first"), end(1), begin_nowrite(1, "g", "aborted"), abort(1),
+                               log(1, "handled"), begin(1, "h", "last"), end(1)])),
+        # an inner block aborted inside an outer one that completes, a step change in between; a second worker's
+        # block is aborted at the same time; an aborted block as the only thing a step contains
+        wrap(test(1, "t1", 1, [step(1, "a")])[:-1] + test(2, "t2", 2, [step(2, "b")])[:-1] +
+             [begin(1, "f", "outer"), begin_nowrite(2, "g", "two", True), begin_nowrite(1, "h", "inner"), step(1, "a2"),
+              abort(2), abort(1), end(1), step(2, "b2"), begin_nowrite(2, "k", "only"), abort(2),
+              {"tid": 1, "op": "endTest", "path": ["s", "t1"]}, {"tid": 2, "op": "endTest", "path": ["s", "t2"]}]),
+        # minimised failing input of the seeded change C06-2 (event fired in a `finally:`): nothing but an aborted block
+        {"ops": test(1, "t1", 1, [begin_nowrite(1, "g", "aborted"), abort(1)])[:-1]},
+        # leaving a block by an exception that was never entered
+        wrap(test(1, "t1", 1, [step(1, "a"), abort(1)])),
     ]
 
 
@@ -366,7 +422,17 @@ class SessionStream(C.Stream):
                     if "tid" in e:      # map now: OS thread idents are reused after a thread ends
                         e["tid"] = ident2tid.get(e["tid"], -1)
                     fired.append(e)
+                    if e["e"] == "att":
+                        # what is on disk at the moment the report is told about the attachment
+                        path = os.path.join(tmp, event.attachment_path)
+                        content = None
+                        if os.path.isfile(path):
+                            with open(path) as fh:
+                                content = fh.read()
+                        att_files.append({"path": event.attachment_path, "content": content,
+                                          "expected": _att_content(event.attachment_path)})
 
+        att_files = []
         tmp = tempfile.mkdtemp(prefix="lccverif-sess-")
         clock = _Clock()
         old_time = E.time
@@ -386,6 +452,12 @@ class SessionStream(C.Stream):
         open_cms = {}       # tid -> stack of entered `prepare_attachment` context managers
 
         class NoOpenAttachment(Exception):
+            pass
+
+        class AbortSwallowed(Exception):
+            pass
+
+        class BodyError(Exception):
             pass
         error = None
         accepted = 0
@@ -425,21 +497,36 @@ class SessionStream(C.Stream):
             elif k == "attach":
                 with session.prepare_attachment(op["file"], op["desc"], as_image=op["img"]) as path:
                     with open(path, "w") as fh:
-                        fh.write("x")
+                        fh.write(_att_content(path))
             elif k == "attachBegin":
                 # entering `with session.prepare_attachment(..) as path:` — the body (the following ops of this
                 # thread up to the matching attachEnd) runs with the context manager suspended at its `yield`
                 cm = session.prepare_attachment(op["file"], op["desc"], as_image=op["img"])
                 path = cm.__enter__()
-                with open(path, "w") as fh:
-                    fh.write("x")
-                open_cms.setdefault(op["tid"], []).append(cm)
+                # `write`: the body writes the file first thing (default) or as its last statement — i.e. just
+                # before leaving the block normally, and not at all when the body raises before that (attachAbort)
+                if op.get("write", True):
+                    with open(path, "w") as fh:
+                        fh.write(_att_content(path))
+                open_cms.setdefault(op["tid"], []).append((cm, path))
             elif k == "attachEnd":
                 stack = open_cms.get(op["tid"])
                 if not stack:
                     raise NoOpenAttachment()
                 # leaving the block normally; entered and left by the same real thread
-                stack.pop().__exit__(None, None, None)
+                cm, path = stack.pop()
+                if not os.path.exists(path):
+                    with open(path, "w") as fh:
+                        fh.write(_att_content(path))
+                cm.__exit__(None, None, None)
+            elif k == "attachAbort":
+                stack = open_cms.get(op["tid"])
+                if not stack:
+                    raise NoOpenAttachment()
+                # the body raised: the exception is thrown into the context manager, which must let it through
+                exc = BodyError("body of the with block raised")
+                if stack.pop()[0].__exit__(BodyError, exc, None):
+                    raise AbortSwallowed()
             elif k == "threadCreate":
                 new = op["new"]
                 # precondition of lcc.Thread (always true when the runner calls user code): a step is current;
@@ -504,7 +591,7 @@ class SessionStream(C.Stream):
                     q.put(op)
                     st = ack.get(timeout=20)
                 if st[0] == "err":
-                    error = {"AttributeError": "noCursor", "AssertionError": "noStep", "NoOpenAttachment": "noAttach"}.get(st[1], st[1])
+                    error = {"AttributeError": "noCursor", "AssertionError": "noStep", "NoOpenAttachment": "noAttach", "AbortSwallowed": "abortSwallowed"}.get(st[1], st[1])
                     break
                 accepted += 1
             with flock:
@@ -521,7 +608,8 @@ class SessionStream(C.Stream):
             S.Session._instance = old_inst
             shutil.rmtree(tmp, ignore_errors=True)
         failures = sorted((R.canon_location(l) for l in failures_now), key=lambda x: C.case_hash(x))
-        return {"fired": fired_snapshot, "failures": failures, "error": error, "accepted": accepted}
+        return {"fired": fired_snapshot, "failures": failures, "error": error, "accepted": accepted,
+                "att_files": att_files[:sum(1 for e in fired_snapshot if e["e"] == "att")]}
 
     # ---- oracle (statement-level facts on the real stream only) -------------------------------------
     def oracle(self, case, obs):
@@ -575,14 +663,16 @@ class SessionStream(C.Stream):
                 if depth.get(t):
                     inside.add("nested")
                 depth[t] = depth.get(t, 0) + 1
-            elif k == "attachEnd":
+            elif k in ("attachEnd", "attachAbort"):
                 if depth.get(t):
                     depth[t] -= 1
+                    if k == "attachAbort":
+                        inside.add("abort")
             elif depth.get(t):
                 inside.add(k)
         if n_win:
             f.append("attach-window")
-            f += sorted("attach-window+" + k for k in inside if k in ("setStep", "nested", "threadCreate", "log", "check"))
+            f += sorted("attach-window+" + k for k in inside if k in ("setStep", "nested", "threadCreate", "log", "check", "abort"))
         kinds = {e["e"] for e in obs["fired"]}
         f += sorted("ev=" + k for k in kinds if k in ("stepStart", "sessionSetupStart", "suiteSetupStart", "att", "testSkipped"))
         return f
